@@ -336,7 +336,11 @@ func (cs *Contracts) parseFile(path, text string) error {
 			if err != nil || len(es) != 1 {
 				return fmt.Errorf("%s: bad axiom", where)
 			}
-			cs.Axioms = append(cs.Axioms, Axiom{Name: nm, Pkg: pkgOfFile(path), Expr: es[0]})
+			apkg := pkgOfFile(path)
+			if k := strings.Index(nm, "."); k > 0 {
+				apkg = nm[:k] // axioms are named <package>.<variable>
+			}
+			cs.Axioms = append(cs.Axioms, Axiom{Name: nm, Pkg: apkg, Expr: es[0]})
 			continue
 		case "field-assume":
 			nm, ex := splitWord(rest)
